@@ -21,6 +21,40 @@ CHECKS = {
              "and buffer contents, which only a controlled scheduler can vary and replay.",
         design_ref="DESIGN.md section 4, C13",
         note=TRUST_A),
+    "C20": dict(
+        engine="simomp",
+        technique="deterministic simulation with fault injection on the memory seam: every exported kernel on "
+                  "simulator-owned stacks, per-access bounds/permission check against registered argument regions, "
+                  "seeded allocator (moving realloc, tiny initial capacity), complementary-garbage differential",
+        text="Every function of _cImageD11.pyf is called with exactly sized, guard-separated buffers; each "
+             "instrumented access is checked before it happens against the regions the call was handed (byte exact, "
+             "read-only for intent(in)); freed heap blocks are quarantined; exit/assert are recorded; each run is "
+             "repeated with complementary garbage in outputs, work areas, stacks and heap and promised outputs must "
+             "agree bitwise. Arguments are sampled (boundary-biased), so this is exploration, not proof.",
+        design_ref="DESIGN.md section 4, C20",
+        note=TRUST_A + " UBSan-only classes (signed overflow, shifts, alignment) and indexing errors confined to a "
+             "kernel's own stack arrays are not observable through the access callbacks."),
+    "C11": dict(
+        engine="simomp",
+        technique="deterministic simulation: dense/sparse/splat labelling kernels under the simulated runtime with "
+                  "seeded allocator faults (disjoint-set capacity 4..16384, moving realloc), garbage buffers, team "
+                  "schedules; oracle = scipy.ndimage.label partition + cross-variant agreement",
+        text="One image and threshold go through connectedpixels (8 and 4 connectivity), sparse_connectedpixels and "
+             "sparse_connectedpixels_splat in strict mode; background, label range 1..n, count and partition are "
+             "compared with an independent labelling and the variants with one another. The allocator seam makes the "
+             "label-table growth path run on small images and occasionally at native size (>16384 labels).",
+        design_ref="DESIGN.md section 4, C11",
+        note=TRUST_A),
+    "C07": dict(
+        engine="simomp",
+        technique="deterministic simulation: score_and_assign under seeded team schedules and seeded grain orders, at "
+                  "kernel level (strict) and through indexer.fight_over_peaks / refinegrains.assignlabels on the "
+                  "instrumented module; oracle = independent numpy argmin model + sequential-semantics model",
+        text="Grain order (history) and thread interleaving inside each call are both drawn from the seed; labels, "
+             "stored errors, per-call counts and the per-grain histogram are compared with an order-free model "
+             "(exact ties excluded). Peak counts cross the 4096 static chunk size.",
+        design_ref="DESIGN.md section 4, C07",
+        note=TRUST_A),
 }
 
 NOT_APPLICABLE = {
